@@ -487,7 +487,16 @@ int vf_geo_neighbors_c(const vf_cell *c, ld frac, H3Index out[MAX_CELL_BNDRY_VER
         V3 a = c->v[i], d = c->v[(i + 1) % c->n];
         V3 m = v3_norm(v3_add(a, d));
         V3 dir = v3_sub(m, c->c);
-        V3 p = v3_norm(v3_add(m, v3_scale(dir, frac)));
+        /* the push must exceed what latLngToCell can resolve at this latitude
+         * (the tolerance of C02: max(2e-12, 4e-15/cos lat)); otherwise the
+         * oracle is undecided for this cell */
+        ld coslat = sqrtl(m.x * m.x + m.y * m.y);
+        ld tol = coslat > 0 ? 4e-15L / coslat : 1;
+        if (tol < 2e-12L) tol = 2e-12L;
+        ld f = frac, need = 8 * tol / v3_len(dir);
+        if (need > f) f = need;
+        if (f > 0.35L) return -2;
+        V3 p = v3_norm(v3_add(m, v3_scale(dir, f)));
         LatLng g = v3_to_ll(p);
         H3Index x;
         if (latLngToCell(&g, c->res, &x)) return -1;
@@ -560,6 +569,31 @@ int64_t *vf_map_put(vf_map *m, uint64_t key, int64_t v, int *isnew) {
     if (isnew) *isnew = 1;
     return &m->v[i];
 }
+/* direct-mapped cache of geometric neighbour lists */
+#define ADJC (1u << 16)
+static struct adj_ent {
+    H3Index h;
+    int8_t n;
+    H3Index nb[MAX_CELL_BNDRY_VERTS];
+} *adjc;
+int64_t vf_adj_hits, vf_adj_miss;
+int vf_geo_neighbors_cached(H3Index h, H3Index out[MAX_CELL_BNDRY_VERTS]) {
+    if (!adjc) adjc = calloc(ADJC, sizeof *adjc);
+    struct adj_ent *e = &adjc[vf_mix(h) & (ADJC - 1)];
+    if (e->h == h) {
+        vf_adj_hits++;
+        memcpy(out, e->nb, sizeof e->nb);
+        return e->n;
+    }
+    vf_adj_miss++;
+    int n = vf_geo_neighbors(h, out);
+    if (n >= 0) {
+        e->h = h;
+        e->n = (int8_t)n;
+        memcpy(e->nb, out, sizeof e->nb);
+    }
+    return n;
+}
 int64_t vf_geo_bfs(H3Index origin, int k, vf_map *dist, H3Index **order) {
     size_t cap = 64, n = 0, head = 0;
     H3Index *q = malloc(cap * 8);
@@ -571,10 +605,10 @@ int64_t vf_geo_bfs(H3Index origin, int k, vf_map *dist, H3Index **order) {
         int64_t d = *vf_map_get(dist, h);
         if (d >= k) continue;
         H3Index nb[MAX_CELL_BNDRY_VERTS];
-        int m = vf_geo_neighbors(h, nb);
+        int m = vf_geo_neighbors_cached(h, nb);
         if (m < 0) {
             free(q);
-            return -1;
+            return m;
         }
         for (int i = 0; i < m; i++) {
             int isnew;
